@@ -35,3 +35,12 @@ Theorem C06_prim_estimate_swap : forall pi_ erf Ntab lMax Kt fl N l1 l2 n a b A 
   prim_estimate ROps pi_ erf Ntab lMax Kt fl N l1 l2 n a b A B = prim_estimate ROps pi_ erf Ntab lMax Kt fl N l2 l1 n b a B A.
 Proof. exact prim_estimate_swap. Qed.
 Print Assumptions C06_prim_estimate_swap.
+
+(* The per-l shell-pair estimate (ShellPair/PairEstimate.v, tied to ECPIntegral::estimate_type2 by the extracted-model correspondence) is
+   symmetric under exchange of the two shells with their data, for every input: the per-l screen decides alike for (A,B) and (B,A). *)
+From LV Require Import ShellPair.PairEstimate ShellPair.PairEstimateProofs.
+Theorem C06_pair_estimate_swap : forall (euler sinh1 pi_ : R) LA LB A2 B2 Am Bm minA minB pA pB l min_eta gs,
+  pair_estimate ROps euler sinh1 pi_ LA LB A2 B2 Am Bm minA minB pA pB l min_eta gs
+  = pair_estimate ROps euler sinh1 pi_ LB LA B2 A2 Bm Am minB minA pB pA l min_eta gs.
+Proof. exact pair_estimate_swap. Qed.
+Print Assumptions C06_pair_estimate_swap.
